@@ -279,5 +279,49 @@ class ConstraintEnergyHistories(common.Suite):
         return "".join(sorted(set(obs.get("outcomes", [])))) or None
 
 
+class CollectiveEnergyHistories(ConstraintEnergyHistories):
+    """a COLLECTIVE constraint (ASE FixCom: moving one atom shifts all the others) with vetoed attempts: after a failed
+    trial the remembered positions must still be the current ones, the reference energy that of the current atoms, and
+    reading the energy must cost nothing. No model (positions are no longer integer-valued); oracle only."""
+
+    name = "collective-constraint-energy-histories"
+
+    def cases(self, rng, tier):
+        yield from c03.CollectiveConstraintHistories().cases(rng, tier)
+
+    def real(self, case):
+        sim = machine.Sim(case, calc_factory("caching"))
+        out = {"outcomes": [], "checks": []}
+        for k, tr in enumerate(case["trials"]):
+            ev = sim.calc.nevals
+            try:
+                o = sim.run_trial(tr)
+                reported = sim.atoms.get_potential_energy()
+            except Exception as ex:  # noqa: BLE001
+                out["exception"] = type(ex).__name__
+                out["message"] = str(ex)[:300]
+                out["exception_at"] = k
+                break
+            c = sim.mc.context
+            out["outcomes"].append(o)
+            out["checks"].append({"reported": float(reported), "reference": float(c.last_potential_energy),
+                                  "fresh": float(fresh_energy(sim.atoms)), "devals": sim.calc.nevals - ev,
+                                  "last_positions_ok": bool(np.array_equal(c.last_positions, sim.atoms.positions))})
+        return out
+
+    def oracle(self, case, obs):
+        out = super().oracle(case, obs)
+        for k, ch in enumerate(obs["checks"]):
+            o = obs["outcomes"][k]
+            what = {"T": "accepted", "F": "rejected", "N": "failed"}[o]
+            if not ch["last_positions_ok"]:
+                out.append((f"energy:remembered-geometry:collective-constraint:{what}",
+                            f"trial {k}: remembered positions differ from the current ones"))
+            if ch["devals"] > (0 if o == "N" else 1):
+                out.append((f"energy:extra-evaluation:collective-constraint:{what}",
+                            f"trial {k}: {ch['devals']} evaluations (trial + logger read)"))
+        return out[:4]
+
+
 def suites(tier):
-    return [EnergyHistories(), ConstraintEnergyHistories()]
+    return [EnergyHistories(), ConstraintEnergyHistories(), CollectiveEnergyHistories()]
